@@ -374,7 +374,7 @@ func pickVolume(rng *rand.Rand, quick bool) int {
 	}
 }
 
-var executeModes = []string{"execute", "execute-default-msgs", "execute-env", "new-execute", "new-env-execute", "output", "output-env", "start", "new-execute-again"}
+var executeModes = []string{"execute", "execute-default-msgs", "execute-env", "new-execute", "new-env-execute", "output", "output-env", "start", "new-execute-again", "output-then-execute"}
 
 // genCase builds case number i of the seeded list.
 func genCase(rng *rand.Rand, i int, quick bool) *caseSpec {
@@ -572,6 +572,8 @@ func fixedCases() []*caseSpec {
 	l = append(l,
 		mk("the same Subprocess value executed a second time, exit 0", "new-execute-again", 0, "", mkOps(1, "o1\n", 0, 2, "e1\n", 0)),
 		mk("the same Subprocess value executed a second time, exit 6", "new-execute-again", 6, "", mkOps(1, "o1\n", 0)),
+		mk("the loggers which served an Output call serve an Execute, exit 0", "output-then-execute", 0, "", mkOps(1, "o1\n", 0, 2, "e1\n", 0, 1, "o2\n", 0)),
+		mk("the loggers which served an Output call serve an Execute, exit 3", "output-then-execute", 3, "", mkOps(2, "e1\n", 0, 1, "o1\n", 0)),
 	)
 	for i, cs := range l {
 		cs.Index = -1 - i
